@@ -1377,8 +1377,16 @@ func (tr *FnTrans) callEffects(ci ssa.CallInstruction) (map[string]bool, bool) {
 	}
 	if cc.IsInvoke() {
 		all = true
+	} else if mc, isCl := cc.Value.(*ssa.MakeClosure); isCl {
+		// a function literal called (or deferred) right here: when its body writes no memory that
+		// outlives it (no store through a captured variable, only pure callees) the call changes nothing
+		if cf, ok := mc.Fn.(*ssa.Function); ok && len(tr.purityOf(cf, 1)) == 0 {
+			tr.usedSpecs["function literal "+cf.Name()+" writes no caller-visible memory (syntactic check of its body)"] = true
+			return map[string]bool{}, false
+		}
+		all = true
 	} else if _, isFn := cc.Value.(*ssa.Function); !isFn {
-		// closure or function value: captured state unknown
+		// function value: captured state unknown
 		all = true
 	}
 	return mod, all
@@ -1508,8 +1516,12 @@ func (tr *FnTrans) doCall(st *BState, ci ssa.CallInstruction) Val {
 		for i, rn := range site.ResNames {
 			for _, f := range spec.Fresh {
 				if f == rn || f == fmt.Sprintf("result%d", i) {
-					if _, isPtr := results[i].Ty.Underlying().(*types.Pointer); isPtr {
+					switch results[i].Ty.Underlying().(type) {
+					case *types.Pointer, *types.Map:
 						tr.assume(st.reach, fmt.Sprintf("(or (= %s nil) (>= (rootloc %s) %s))", results[i].T, results[i].T, acBefore), "fresh result of "+name)
+					case *types.Slice:
+						b := fmt.Sprintf("(sbase %s)", results[i].T)
+						tr.assume(st.reach, fmt.Sprintf("(or (= %s nil) (>= (rootloc %s) %s))", b, b, acBefore), "fresh result of "+name)
 					}
 				}
 			}
